@@ -200,7 +200,7 @@ let e2_cmd (args : string list) : string =
   | ["restore"; c] -> run (Restore (ni c))
   | ["ckptscan"; c] -> run (CkptScan (ni c))
   | ["rotate"] | ["flush"] | ["flush1"] | ["compact"; _] | ["compactauto"] -> run Physical
-  | ["levels"] | ["snapshots"] -> "info"
+  | ["levels"] | ["snapshots"] | ["lvdump"] -> "info"
   | _ -> "bad-command"
 
 (* ---------- CK: compaction of the versions of each key ---------- *)
@@ -1353,6 +1353,90 @@ let vl_cmd (args : string list) : string =
   | ["state"] -> vl_show ()
   | _ -> "bad-command"
 
+(* ---------- LV: the level structure (Lsm/Levels.v): invariant, point reads and steps on dumped states ---------- *)
+let lv_kind_of = function 0 -> CDel | 1 -> CSoft | 6 -> CRep | _ -> CSet
+let lv_kind_no = function CDel -> 0 | CSoft -> 1 | CSet -> 2 | CRep -> 6
+let lv_ver (tok : string) : Lv.version =
+  match String.split_on_char '.' tok with
+  | [k; seq; kind; ts] ->
+    { Lv.xkey = bytes_of_hex k; xver = { vseq = big_of_string seq; vkind = lv_kind_of (int_of_string kind); vts = big_of_string ts }; xval = [] }
+  | _ -> failwith "bad version"
+let lv_vers (s : string) : Lv.version list = if s = "-" then [] else List.map lv_ver (String.split_on_char ',' s)
+let lv_table (tok : string) : Lv.table =
+  match String.split_on_char ':' tok with
+  | [id; lo; hi; vs] -> { Lv.tid = big_of_string id; tlo = bytes_of_hex lo; thi = bytes_of_hex hi; tvers = lv_vers vs }
+  | _ -> failwith "bad table"
+let lv_level (s : string) : Lv.table list = if s = "-" then [] else List.map lv_table (String.split_on_char '+' s)
+let lv_nums (s : string) : n list = if s = "-" then [] else List.map big_of_string (String.split_on_char ',' s)
+let lv_show_ver (x : Lv.version) : string =
+  Printf.sprintf "%s.%s.%d.%s" (hex_of_bytes x.Lv.xkey) (dec_of_n x.Lv.xver.vseq) (lv_kind_no x.Lv.xver.vkind) (dec_of_n x.Lv.xver.vts)
+let lv_show_vers (l : Lv.version list) : string = if l = [] then "-" else String.concat "," (List.map lv_show_ver l)
+let lv_dash s = if s = "" then "-" else s
+let lv_show_state (st : Lv.store) : string =
+  Printf.sprintf "lv:act=%s;imm=%s;lev=%s" (lv_show_vers st.Lv.active)
+    (* the order in which get searches them: newest first *)
+    (lv_dash (String.concat "+" (List.map (fun m -> "0:" ^ lv_show_vers m) (List.rev st.Lv.imms))))
+    (String.concat "/" (List.map (fun l -> lv_dash (String.concat "+" (List.map (fun t ->
+         Printf.sprintf "%s:%s:%s:%s" (dec_of_n t.Lv.tid) (hex_of_bytes t.Lv.tlo) (hex_of_bytes t.Lv.thi) (lv_show_vers t.Lv.tvers)) l))) st.Lv.levels))
+let lv_fields (line : string) : (string * string) list =
+  let body = if String.length line > 3 && String.sub line 0 3 = "lv:" then String.sub line 3 (String.length line - 3) else failwith "not a level dump" in
+  List.map (fun kv -> match String.index_opt kv '=' with
+      | Some i -> (String.sub kv 0 i, String.sub kv (i + 1) (String.length kv - i - 1))
+      | None -> failwith "bad field") (String.split_on_char ';' body)
+let lv_parse (line : string) : Lv.store =
+  let f = lv_fields line in
+  let imm = List.assoc "imm" f in
+  let imms_search = if imm = "-" then [] else List.map (fun tok ->
+      match String.index_opt tok ':' with
+      | Some i -> lv_vers (String.sub tok (i + 1) (String.length tok - i - 1))
+      | None -> failwith "bad immutable") (String.split_on_char '+' imm) in
+  { Lv.active = lv_vers (List.assoc "act" f);
+    imms = List.rev imms_search;   (* the Vec: oldest first *)
+    levels = List.map lv_level (String.split_on_char '/' (List.assoc "lev" f)) }
+let lv_empty : Lv.store = { Lv.active = []; imms = []; levels = [] }
+let lv_cur = ref lv_empty
+let lv_model = ref lv_empty
+let lv_b b = if b then 1 else 0
+let lv_cmd (args : string list) : string =
+  match args with
+  | ["rules"] ->
+    Printf.sprintf "rules_ok=%d select_ok=%d anchors=%d l0_rule=%d" (lv_b (Lv.rules_okb Lv.current)) (lv_b (Lv.srules_okb Lv.current_sel))
+      (lv_b lEVELS_ANCHORS_OK) (int_of_n Lv.current.Lv.r_l0)
+  | ["load"; line] ->
+    let st = lv_parse line in
+    lv_cur := st; lv_model := st;
+    let log = Lv.mem_log st and tabs = Lv.tab_versions st in
+    let why = List.filter_map (fun (name, ok) -> if ok then None else Some name)
+        [ ("memtables-newest-first", Lv.desc_log_b log);
+          ("memtables-above-tables", Lv.above_b log tabs);
+          ("levels-newest-first", Lv.lv_ordered_b st.Lv.levels);
+          ("one-version-per-key-and-seq", List.for_all (fun l -> Lv.uniq_b (Lv.lvers l)) st.Lv.levels);
+          ("table-range-covers-versions", List.for_all (List.for_all Lv.table_wf_b) st.Lv.levels);
+          ("deeper-level-key-disjoint", List.for_all Lv.key_disjoint_b (match st.Lv.levels with [] -> [] | _ :: r -> r));
+          ("positive-seq", List.for_all (fun x -> x.Lv.xver.vseq <> N0) (Lv.all_versions st));
+          ("deeper-level-ranges-sorted", List.for_all Lv.ranges_sorted_b (match st.Lv.levels with [] -> [] | _ :: r -> r)) ] in
+    let ids = List.concat_map (List.map (fun t -> t.Lv.tid)) st.Lv.levels in
+    Printf.sprintf "ok inv=%d age=%d nodup=%d why=%s" (lv_b (Lv.inv_b st)) (lv_b (Lv.age_ordered_b st))
+      (lv_b (List.length (List.sort_uniq compare ids) = List.length ids)) (lv_dash (String.concat "," why))
+  | ["reads"; hs] ->
+    let st = !lv_cur in
+    let keys = List.sort_uniq compare (List.map (fun x -> hex_of_bytes x.Lv.xkey) (Lv.all_versions st)) in
+    let show f = lv_dash (String.concat "," (List.concat_map (fun h -> List.map (fun k ->
+        Printf.sprintf "%s.%s.%s" k (dec_of_n h) (match f (bytes_of_hex k) h with Some (_, seq) -> dec_of_n seq | None -> "n")) keys) (lv_nums hs))) in
+    Printf.sprintf "reads:%s;views:%s" (show (fun k h -> Lv.get Lv.current st k h)) (show (fun k h -> Lv.view_of_all st h k))
+  | ["apply"; "rotate"] -> lv_model := Lv.step Lv.current !lv_model Lv.ORotate; "ok"
+  | ["apply"; "flush"; id] -> lv_model := Lv.step Lv.current !lv_model (Lv.OFlush (big_of_string id)); "ok"
+  | ["apply"; "compact"; src; seed; ids; newid; ver; ret; now; snaps] ->
+    let st = !lv_model in
+    let src = nat_of_int (int_of_string src) and ids = lv_nums ids in
+    let c = { Lv.c_versioning = (ver = "1"); c_retention = big_of_string ret; c_now = big_of_string now } in
+    let chosen = Lv.select_tables Lv.current_sel src (big_of_string seed) st.Lv.levels in
+    lv_model := Lv.step Lv.current st (Lv.OCompact (src, ids, big_of_string newid, c, lv_nums snaps));
+    Printf.sprintf "ok selok=%d select=%s" (lv_b (Lv.sel_ok_b st src ids))
+      (lv_dash (String.concat "," (List.map dec_of_n (List.sort compare chosen))))
+  | ["show"] -> lv_show_state !lv_model
+  | _ -> "bad-command"
+
 let () =
   try
     while true do
@@ -1377,6 +1461,7 @@ let () =
             | "cp" :: rest -> cp_cmd rest
             | "vp" :: rest -> vp_cmd rest
             | "vl" :: rest -> vl_cmd rest
+            | "lv" :: rest -> lv_cmd rest
             | _ -> "bad-command"
           with
           | Not_found -> "error:not-found"
